@@ -7,23 +7,27 @@ SPEC = dict(
                'contract of mass() (contracts/masssum.py, C02) three lemmas are derived: a static rule targeting N-Term (C-Term) gives exactly '
                'the mass of the same peptide with those modifications written explicitly on that terminus, and a rule whose residue target '
                'does not occur changes nothing (for residue targets the contract itself states: mass of the rule\'s modifications x number of '
-               'occurrences). BOUNDED (labelled) on the real functions: a peptide written with global static rules (1..3 targets among residues / N-Term / '
+               'occurrences); condense_static_mods (copy mode) is proved to remove the rules, to leave every position no residue rule matches '
+               'exactly as it was, to leave every matched position modified, to keep pre-existing residue modifications, to touch the '
+               'N- / C-terminal modifications only under an N-Term / C-Term rule, and to change nothing else (two nested loop invariants; the regex '
+               'matches are LC-REGEX). BOUNDED (labelled) on the real functions: a peptide written with global static rules (1..3 targets among residues / N-Term / '
                'C-Term, 1..2 modifications, several rules incl. re-targeting, residues already modified) has the same mass (p,b,y,c,z; both '
                'modes), composition + residual, modified-residue counts and b/y fragment ions as the explicit per-residue form built '
                'independently from the description, and condensing the rule yields exactly that form; a global isotope label shifts the '
                'monoisotopic mass by (atoms of that element in residues and termini, plus those of formula modifications only with '
                'use_isotope_on_mods) x the isotope mass difference from the independent NIST table, and leaves peptides without the element '
-               'unchanged. condense_static_mods / parse_static_mods (regex, rule text) are bounded only.',
+               'unchanged. the VALUES condensation writes (a rule\'s modifications appended in rule order) and parse_static_mods (rule text) are bounded only.',
     level_note='regex (re.finditer on single letters), text splitting of the rule and the resolver are exercised, not modelled.',
     design_ref='DESIGN.md section 6, C12',
-    contracts=['labelcomp', 'masssum'], targets={'masssum': ['LEMMAS']},
+    contracts=['labelcomp', 'condstatic', 'masssum'], targets={'masssum': ['LEMMAS']},
     technique='weakest-precondition VCs from the real AST of apply_isotope_mods_to_composition against a sidecar contract; lemmas over the '
               'proved contract of mass(); both discharged by z3 / cvc5; bounded run-time relational check of the real calculators against an independently constructed explicit form and NIST '
               'isotope masses (labelled stand-in)',
     bounded=[dict(name='C12-bounded', script='bounded/C12.py')],
     replay_finder='bounded/C12.py',
     explanation='isotope relabelling of compositions and terminal-rule lemmas proved; rule form vs explicit form bounded',
-    proved_clauses=['isotope label: all atoms of the element move to the labelled isotope (accumulating), nothing else changes, absent element unchanged',
+    proved_clauses=['condensing writes on exactly the positions the residue rules match, keeps everything else (which positions; values bounded)',
+                    'isotope label: all atoms of the element move to the labelled isotope (accumulating), nothing else changes, absent element unchanged',
                     'terminal static rule == explicit terminal modification (mass); absent residue target changes nothing'],
     bounded_clauses=['rule form == explicit form: mass, composition, counts, fragments, condensation', 'isotope label shift == atoms x mass difference; use_isotope_on_mods; absent element unchanged'],
     uncovered_clauses=[],
